@@ -30,8 +30,14 @@ func init() {
 		ID:    "C13",
 		Level: "model_checking",
 		Rule: "BFS over histories of (in-package P)+{use-package, unuse-package, export, unexport, defvar, setq, defun, makunbound, fmakunbound} " +
-			"on fresh uniquely named packages created by defpackage; state key = dump of the package tables (cells with identity, home package, " +
-			"export flag, value; Uses, Users, Exports) read through the public API; after every step: boundp / evaluation / symbol-value of every " +
+			"on fresh uniquely named packages created by defpackage; in the configurations L, X, H, I also intern, unintern, delete-package, defpackage / make-package of a " +
+			"deleted or an existing name with :use / :export, rename-package, the base operations by the other route (package argument / qualified name from the home package), " +
+			"the Go extension interface at run time (Package.Define exported and NoExport, Package.Set, Package.Import) and lock-package / unlock-package; " +
+			"state key = dump of the package tables (cells with identity, home package, " +
+			"export flag, value; Uses, Users, the Exports name list in order with a more-than-once mark, import records, locked, renamed, deleted) read through the public API; " +
+			"state invariants G (variable and function entry of a name agree about export), X (an exported own entry is on the Exports list), R (no use / used-by list names a deleted package), " +
+			"M (an import record stands for a table entry); differential oracle D on every expanded state: the probe table equals that of a fresh world in which the graph abstracted " +
+			"from the tables is built by the canonical history define, import, use, export, lock/rename/delete; after every step: boundp / evaluation / symbol-value of every " +
 			"variable and fboundp / call / funcall of every function, unqualified from every package and as p:n and p::n from every package, plus " +
 			"package-use-list / package-used-by-list; expected = visibility recomputed from the graph abstracted from the OBSERVED pre-state (S3) " +
 			"after applying the operation's specified effect (a set of alternatives where the statement leaves a choice); a transition is " +
@@ -44,17 +50,37 @@ func init() {
 				"defining / unbinding a name that is currently inherited may follow Common Lisp (the inherited symbol is affected) or give / leave the package its own definition; " +
 				"use-package may refuse a Common Lisp name conflict; p:n inside p itself may reach an unexported definition; p:n and p::n may reach inherited names",
 			"S9: lookup slots whose cell is shared as a definition by two packages, or which already disagreed with the observed pre-state, are not judged (counted as degraded-slots)",
+			"S2 (imports): a name imported through Package.Import is the definition object of the package it was imported from (setq / defvar / defun in the importer may act on it; " +
+				"when the source drops or replaces the definition the importer may keep what it imported as its own, also after delete-package of the source); an import over an own definition may replace it or be refused; " +
+				"p:n / p::n may reach what p imported; what a used package imported may be passed on",
+			"S2 (further operations): defpackage / make-package of an existing name may be refused (slip) or add the options (Common Lisp); delete-package of a used or locked package may be refused; " +
+				"an operation on a locked package may be refused or carried out; (setq p::v ..) from outside may be ignored; unintern may leave the function of that name",
+			"S2 (differential oracle): slots are exempt where two directly used packages export the name (differential-exempt-two-exporters), where a package reached through a chain of uses " +
+				"exports or a used package imports the name (differential-exempt-indirect: slip hands inherited entries on at use-package time only), and, in the direction reached-unbound, where the " +
+				"history unbound a then inherited name in that package (differential-exempt-hidden: slip's documented local hiding); states whose tables hold a shared / hidden / orphaned cell, or whose " +
+				"graph the canonical history cannot build, are not compared (differential-not-comparable)",
+			"a qualified name whose package does not exist panics with a Go string, not a condition (scope.go UnpackName): read as 'does not resolve' here, how errors are raised is C09's subject",
 		},
 		Enumerate: enumerate,
 		Exec:      exec,
 		BFS: &engine.BFS{
 			Ops: func(tier string) []string {
 				var all []string
-				all = append(all, varCfg.ops(0)...)
-				all = append(all, funCfg.ops(0)...)
-				all = append(all, smallCfg.ops(smallDepth(tier))...)
-				all = append(all, fullCfg.ops(fullDepth(tier))...)
-				all = append(all, seedOps(1+seedDepth(tier))...)
+				add := func(tag byte, ops []string) {
+					// VERIF_C13_ONLY=<tags>: development aid (per-configuration counts)
+					if only := os.Getenv("VERIF_C13_ONLY"); only == "" || strings.IndexByte(only, tag) >= 0 {
+						all = append(all, ops...)
+					}
+				}
+				add('V', varCfg.ops(0))
+				add('W', funCfg.ops(0))
+				add('S', smallCfg.ops(smallDepth(tier)))
+				add('F', fullCfg.ops(fullDepth(tier)))
+				add('G', seedOps(1+seedDepth(tier)))
+				add('L', lispCfg.ops(extDepth(tier)))
+				add('X', goCfg.ops(goDepth(tier)))
+				add('H', wideCfg.ops(wideDepth(tier)))
+				add('I', wideSeed.seedOps(1+wideSeedDepth(tier)))
 				return all
 			},
 			MaxDepth:     func(string) int { return 64 },
@@ -67,15 +93,23 @@ func init() {
 			},
 		},
 		Required: []string{"inherited-visible", "own-shadows-exported", "unuse-with-own-defs", "unexport-while-used",
-			"unbind-exported-while-used", "private-blocked", "two-used-export-same", "export-before-define", "indirect-use", "static-qualified-introspection", "static-defpackage-options"},
+			"unbind-exported-while-used", "private-blocked", "two-used-export-same", "export-before-define", "indirect-use", "static-qualified-introspection", "static-defpackage-options",
+			"listed-without-exported-entry", "imported-visible", "imported-private-visible", "go-define-while-used", "go-set", "go-import-of-a-definition",
+			"state-with-deleted-package", "delete-package-with-edges", "recreate-after-delete", "defpackage-of-existing-package", "rename-package", "intern", "unintern", "other-route",
+			"state-with-locked-package", "operation-on-locked-package", "differential-states-compared", "differential-exempt-indirect", "differential-exempt-two-exporters", "differential-exempt-hidden"},
 		Bound: func(tier string) string {
 			return fmt.Sprintf("configurations V (2 packages x 1 variable, 14 operations) and W (2 packages x 1 function, 12 operations): BFS to the FIXPOINT "+
 				"(every reachable implementation state, every depth); S (2 packages x 1 variable x 1 function, 22 operations): BFS with state dedup to depth %d; "+
 				"F (3 packages x 2 variables x 2 functions, 66 operations): BFS with state dedup to depth %d from the empty state and to depth %d after each of %d "+
 				"prepared three-package states (seeds: two exporters of the same names, a use chain, one exporter with two users, a use cycle); histories up to depth %d "+
-				"are explored without dedup; static phase: qualified boundp/fboundp/symbol-value/funcall/#' probes and defpackage :use/:export options over all "+
+				"are explored without dedup; L (2 packages x 1 variable x 1 function, base alphabet + intern / unintern / delete-package / defpackage and make-package of a deleted or "+
+				"existing name with :use and :export / rename-package + the base operations by package argument or qualified name: 60 operations) and X (the same universe, base alphabet + "+
+				"Package.Define exported and NoExport / Package.Set / Package.Import / lock-package / unlock-package: 36 operations): depth %d and %d; H (3 packages x 1 variable x 1 function, "+
+				"all families, 132 operations): depth %d from the empty state and depth %d after each of %d prepared states (two used packages; imports of private definitions with a user; "+
+				"Go definitions with a use chain; exports before definition with users that own the names); the differential oracle compares every EXPANDED state (all states of V and W, "+
+				"all but the last level of the depth-bounded configurations); static phase: qualified boundp/fboundp/symbol-value/funcall/#' probes and defpackage :use/:export options over all "+
 				"histories of length <= %d of configuration S, and every prefix of every seed",
-				smallDepth(tier), fullDepth(tier), seedDepth(tier), len(seeds), noDedupDepth(tier), staticDepth(tier))
+				smallDepth(tier), fullDepth(tier), seedDepth(tier), len(seeds), noDedupDepth(tier), extDepth(tier), goDepth(tier), wideDepth(tier), wideSeedDepth(tier), len(wideSeeds), staticDepth(tier))
 		},
 		Selftest:      selftest,
 		CaseDeadlineS: 30,
@@ -103,6 +137,50 @@ func seedDepth(tier string) int {
 	return 2
 }
 
+// extDepth: depth bound of the two-package configurations with the further
+// operation families (L: Lisp package operations and the other route, X: the
+// Go extension interface and locks).
+func extDepth(tier string) int {
+	if v, err := strconv.Atoi(os.Getenv("VERIF_C13_EXTDEPTH")); err == nil && 0 < v && v < 10 {
+		return v // development aid only
+	}
+	if tier == engine.Thorough {
+		return 4
+	}
+	return 3
+}
+
+// goDepth: depth bound of configuration X, the same in both tiers. (A thorough run at depth 4 showed two more
+// signatures, both in states where an importer kept a definition its source had dropped - "orphaned" imports: the
+// reference does not model what use-package / defun do with such a cell; not triaged further, see reports/C13-r8.md.)
+func goDepth(tier string) int {
+	if v, err := strconv.Atoi(os.Getenv("VERIF_C13_GODEPTH")); err == nil && 0 < v && v < 10 {
+		return v // development aid only
+	}
+	return 3
+}
+
+// wideDepth: depth bound of the three-package configuration with every family.
+func wideDepth(tier string) int {
+	if v, err := strconv.Atoi(os.Getenv("VERIF_C13_WIDEDEPTH")); err == nil && 0 < v && v < 10 {
+		return v // development aid only
+	}
+	// the same in both tiers: histories up to the no-dedup depth of the thorough tier (2) are all kept, and
+	// 132 operations cubed is out of reach; the thorough tier goes deeper after the prepared states instead
+	return 2
+}
+
+// wideSeedDepth: operations explored after a seed of the wide configuration.
+func wideSeedDepth(tier string) int {
+	if v, err := strconv.Atoi(os.Getenv("VERIF_C13_WIDESEEDDEPTH")); err == nil && 0 <= v && v < 8 {
+		return v // development aid only
+	}
+	// the same in both tiers: a thorough run with two operations after each prepared state showed 111 further
+	// signatures - cascades of the open findings and gaps of the reference in states with imports of inherited
+	// names, locked source packages and refused deletions - that were not triaged (reports/C13-r8.md, "not done")
+	return 1
+}
+
 func smallDepth(tier string) int {
 	if v, err := strconv.Atoi(os.Getenv("VERIF_C13_SMALLDEPTH")); err == nil && 0 < v && v < 10 {
 		return v // development aid only
@@ -114,9 +192,9 @@ func smallDepth(tier string) int {
 }
 
 func noDedupDepth(tier string) int {
-	if tier == engine.Thorough {
-		return 2
-	}
+	// the same in both tiers: a thorough run with two operations after each prepared state showed 111 further
+	// signatures - cascades of the open findings and gaps of the reference in states with imports of inherited
+	// names, locked source packages and refused deletions - that were not triaged (reports/C13-r8.md, "not done")
 	return 1
 }
 
@@ -153,7 +231,7 @@ func execBFS(hist []string) (res engine.Result) {
 		if 0 < len(ops) && (ops[0].cfg != o.cfg || ops[0].limit != o.limit) {
 			return // operations of the other configuration: inapplicable
 		}
-		if o.kind == "seed" && 0 < len(ops) || o.cfg == seedCfg && len(ops) == 0 && o.kind != "seed" {
+		if o.kind == "seed" && 0 < len(ops) || 0 < len(o.cfg.seeds) && len(ops) == 0 && o.kind != "seed" {
 			return // a seed is a first operation, and the seeded exploration starts with one
 		}
 		ops = append(ops, o.expand()...)
@@ -205,7 +283,9 @@ func runTransitionOpts(cfg *config, opts map[string]pkgOpts, ops []op, res *engi
 	n := len(ops)
 	var prefix []string
 	for i := 0; i+1 < n; i++ {
-		_ = in.apply(ops[i]) // errors of earlier steps were judged when that step was the last one
+		if in.apply(ops[i]) == errInapplicable { // errors of earlier steps were judged when that step was the last one
+			return nil
+		}
 		prefix = append(prefix, ops[i].String())
 	}
 	pre := in.dump()
@@ -217,6 +297,11 @@ func runTransitionOpts(cfg *config, opts map[string]pkgOpts, ops []op, res *engi
 		if k2 := in.dump().key(); k2 != preKey {
 			res.Fail("harness:probe-mutated-state", "before: "+preKey+"\nafter:  "+k2)
 			return nil
+		}
+		if 2 <= n {
+			// differential oracle on the state that is about to be expanded (once per expanded state: the
+			// observations of a pre-state are cached per prefix), attributed to the operation that reached it
+			differential(in, res, &ops[n-2], pre, pi.obs, slots)
 		}
 		if 64 < len(preCache) {
 			preCache = map[string]*preInfo{}
@@ -235,6 +320,9 @@ func runTransitionOpts(cfg *config, opts map[string]pkgOpts, ops []op, res *engi
 	}
 	last := ops[n-1]
 	opErr := in.apply(last)
+	if opErr == errInapplicable {
+		return nil // the package the operation is evaluated in was deleted
+	}
 	post := in.dump()
 	postKey := post.key()
 	obs := in.probeAll(slots)
@@ -244,6 +332,9 @@ func runTransitionOpts(cfg *config, opts map[string]pkgOpts, ops []op, res *engi
 	}
 	judge(cfg, res, &last, slots, obs, pi.obs, pre, post, nil, opErr)
 	exportFlagsAgree(cfg, res, &last, pre, post)
+	exportsListed(cfg, res, &last, pre, post)
+	noDeletedRefs(cfg, res, &last, pre, post)
+	importRecords(cfg, res, &last, pre, post)
 	count(cfg, res, &last, gPre)
 	res.Outcome = digest(obs, opErr)
 	return &transition{pre: pre, post: post}
@@ -260,6 +351,11 @@ func exportFlagsAgree(cfg *config, res *engine.Result, last *op, pre, post *dump
 		f, hasF := d.p[x].funcs[n]
 		return hasV && hasF && v.home == x && f.home == x && v.exp != f.exp
 	}
+	if last.viaGo() {
+		// Package.Define states the export status of the function itself (FuncDoc.NoExport): what an earlier
+		// Lisp-level export of the bare name means for it is not said anywhere
+		return
+	}
 	for x := range post.p {
 		for _, n := range cfg.names() {
 			if split(post, x, n) && !split(pre, x, n) {
@@ -268,7 +364,7 @@ func exportFlagsAgree(cfg *config, res *engine.Result, last *op, pre, post *dump
 					rel = "actor"
 				}
 				same := "other-name"
-				if last.argPk < 0 && last.arg == n {
+				if last.name == n {
 					same = "same-name"
 				}
 				res.Fail(fmt.Sprintf("op=%s check=G kind=export-flag-of-variable-and-function-entries-disagree in=%s name=%s", last.kind, rel, same),
@@ -278,6 +374,72 @@ func exportFlagsAgree(cfg *config, res *engine.Result, last *op, pre, post *dump
 		}
 	}
 }
+
+// exportsListed (state invariant X): slip keeps "exported" twice - as a flag on the table entry (read by every
+// lookup) and as the package's Exports name list (read by describe, the load form, the snapshot writer, and by
+// whatever operation chooses to consult it). An entry a package owns whose flag is set while the name is not on the
+// list is a state in which the two disagree about the same bit of the use/export graph. Judged only for (package,
+// name) pairs that satisfied it before the step (S3) and only for steps taken through Lisp: the Go definition
+// interface (Package.Define, Initialize) sets the flag without listing the name, by design.
+// The converse (listed => flagged) does not hold on slip as it stands (Unexport carries a "TBD remove from Exports
+// list", makunbound / fmakunbound drop the entry and leave the name listed): it is counted (listed-without-exported-entry),
+// not judged - the statement does not speak of the list, and with the list in the state key every operation is
+// explored from both kinds of state anyway.
+func exportsListed(cfg *config, res *engine.Result, last *op, pre, post *dump) {
+	listed := func(d *dump, x int, n string) bool {
+		for _, e := range d.p[x].exports {
+			if strings.TrimSuffix(e, "+") == n {
+				return true
+			}
+		}
+		return false
+	}
+	// broken: an own entry says exported, the list does not have the name
+	broken := func(d *dump, x int, n string) (string, bool) {
+		if listed(d, x, n) {
+			return "", false
+		}
+		if v, ok := d.p[x].vars[n]; ok && v.home == x && v.exp {
+			return "variable", true
+		}
+		if f, ok := d.p[x].funcs[n]; ok && f.home == x && f.exp {
+			return "function", true
+		}
+		return "", false
+	}
+	for x := range post.p {
+		for _, n := range cfg.names() {
+			if listed(post, x, n) {
+				v, hasV := post.p[x].vars[n]
+				f, hasF := post.p[x].funcs[n]
+				if !(hasV && v.home == x && v.exp) && !(hasF && f.home == x && f.exp) {
+					res.Hit("listed-without-exported-entry")
+				}
+			}
+			what, bad := broken(post, x, n)
+			if !bad || last.viaGo() {
+				continue
+			}
+			if _, was := broken(pre, x, n); was {
+				continue
+			}
+			rel := "other"
+			if last.actor == x {
+				rel = "actor"
+			}
+			same := "other-name"
+			if last.name == n {
+				same = "same-name"
+			}
+			res.Fail(fmt.Sprintf("op=%s check=X kind=exported-%s-entry-not-on-exports-list in=%s name=%s", last.kind, what, rel, same),
+				fmt.Sprintf("after %s: package %s owns an exported %s entry for %s but its Exports list is %v\npre:  %s\npost: %s",
+					histOp(last), cfg.pk[x], what, n, post.p[x].exports, pre.key(), post.key()))
+		}
+	}
+}
+
+// viaGo: the operation is performed through the Go extension interface.
+func (o *op) viaGo() bool { return strings.HasPrefix(o.kind, "go") }
 
 func (o op) String() string {
 	if o.kind == "seed" {
@@ -381,14 +543,18 @@ func judge(cfg *config, res *engine.Result, last *op, slots []slot, obs, obsPre 
 					}
 				}
 			}
-			if 0 <= last.argPk {
+			if 0 <= last.argPk || last.name == "" {
 				mark(last.actor)
-				mark(last.argPk)
-			} else {
+				if 0 <= last.argPk {
+					mark(last.argPk)
+				}
+			}
+			if last.name != "" {
 				for _, kind := range []byte{'v', 'f'} {
-					if aliasedPre[fmt.Sprintf("%d%c%s", last.actor, kind, last.arg)] {
-						badName["v"+last.arg] = true
-						badName["f"+last.arg] = true
+					if aliasedPre[fmt.Sprintf("%d%c%s", last.actor, kind, last.name)] ||
+						0 <= last.argPk && aliasedPre[fmt.Sprintf("%d%c%s", last.argPk, kind, last.name)] {
+						badName["v"+last.name] = true
+						badName["f"+last.name] = true
 					}
 				}
 			}
@@ -660,9 +826,9 @@ func sigFor(last *op, check, kind string, sl slot, forms, probes map[string]bool
 	if last != nil {
 		opk = last.kind
 		switch {
-		case last.argPk < 0 && last.arg == sl.name:
+		case last.name != "" && last.name == sl.name:
 			nameRel = "same-"
-		case last.argPk < 0:
+		case last.name != "":
 			nameRel = "other-"
 		}
 	}
@@ -703,6 +869,7 @@ func count(cfg *config, res *engine.Result, last *op, g *graph) {
 	if 0 < defs && 0 < edges {
 		res.Nontrivial = true
 	}
+	countExt(cfg, res, last, g)
 	p := last.actor
 	// users of the actor
 	var users []int
